@@ -108,7 +108,7 @@ def extract(repo=None, config='default', debug_assertions=True):
     repo = repo or REPO
     os.makedirs(CACHE, exist_ok=True)
     ensure_driver()
-    key = '%s-%s-%s-v2' % (tree_hash(repo), config, 'da' if debug_assertions else 'nda')
+    key = '%s-%s-%s-v3' % (tree_hash(repo), config, 'da' if debug_assertions else 'nda')
     out = os.path.join(CACHE, 'facts-%s.json' % key)
     lock = open(os.path.join(CACHE, 'lock-%s' % key), 'w')
     fcntl.flock(lock, fcntl.LOCK_EX)
